@@ -458,6 +458,17 @@ func main() {
 			scs = append(scs, harness.Scenario{Name: fmt.Sprintf("%s/wg%dx%d/after-kernel-%s/resident%d", n, g.WGSize, g.NumWG, bf.k, g.NumWG), Bound: b, Body: body(ks[n], g, o)})
 		}
 	}
+	// the mi300a parameters (8-wide transaction pipeline) against a slow vector memory
+	for _, n := range []string{"k4_waitcnt_vm", "k11_many_stores", "k13_gather_sparse_then_dense_line", "k15_uncoalesced_64_lines_per_load", "k8_store_then_endpgm"} {
+		g := geo{256, 2}
+		o := cuworld.TimingOpts{Scoreboard: true, Resident: 2, Delays: []int{9, 60}, MI300AKnobs: true, SlowVector: 12, Horizon: 60000}
+		scs = append(scs, harness.Scenario{Name: fmt.Sprintf("%s/wg%dx%d/mi300a-knobs+slow-memory(v12)/resident2", n, g.WGSize, g.NumWG), Bound: 0, Body: body(ks[n], g, o)})
+	}
+	for _, wd := range []int{2, 8} {
+		g := geo{256, 2}
+		o := cuworld.TimingOpts{Resident: 2, Delays: []int{9, 60}, TransPipelineWidth: wd, SlowVector: 12, Horizon: 60000}
+		scs = append(scs, harness.Scenario{Name: fmt.Sprintf("k15_uncoalesced_64_lines_per_load/wg256x2/trans-pipeline-width%d+slow-memory(v12)/resident2", wd), Bound: 0, Body: body(ks["k15_uncoalesced_64_lines_per_load"], g, o)})
+	}
 	// a dispatcher that is slow to take completions: many small work-groups finish while the CU's 4-entry port
 	// towards it is full
 	for _, sl := range []struct {
